@@ -51,6 +51,7 @@ class TypeGen:
         self.allow_field_engine = True
         self.allow_stype = not schema_only
         self.allow_talias = True
+        self.shuffled_names = True       # own fields a0 / e1 / u2 ...: declaration order differs from sorted order
         self.dc_config_fn = dc_config_fn
         self.mixins = mixins
         self.vgen = Gen(fam, rng)
@@ -90,8 +91,11 @@ class TypeGen:
             members = [("A", "a"), ("B", "b b"), ("C", "")]
         else:
             members = [("R", 1), ("W", 2), ("X", 4)]
+        functional = r.random() < 0.2
+        # a user _missing_ hook: values the class itself maps to a member are valid inputs (the junk pool holds them)
+        hook = (not functional) and base in ("Enum", "IntEnum", "StrEnum") and r.random() < 0.2
         self.fam.add({"k": "enum", "name": name, "base": base, "members": members,
-                      "functional": r.random() < 0.2})
+                      "functional": functional, "missing_hook": hook})
         t = ("enum", name)
         self._enums.append(t)
         return t
@@ -380,7 +384,7 @@ class TypeGen:
             fields_tail = []
         for i in range(n):
             t = self.type(depth)
-            f = {"n": f"a{i}", "t": t}
+            f = {"n": f"{r.choice('aeu') if self.shuffled_names else 'a'}{i}", "t": t}
             need_default = defaults_started
             if with_defaults and i >= min_required and (need_default or r.random() < 0.3):
                 defaults_started = True
@@ -430,7 +434,7 @@ class TypeGen:
         r = self.rng
         root = self.fresh("B")
         nreq = r.randint(0, 2)
-        rfields = [{"n": f"q{i}", "t": self.type(depth)} for i in range(nreq)]
+        rfields = [{"n": f"{r.choice('qz')}{i}", "t": self.type(depth)} for i in range(nreq)]
 
         def defaulted(n, t=None, old=None):
             if t is None:
